@@ -37,7 +37,7 @@ def main():
         assert subprocess.run(['git', '-C', w, 'status', '--porcelain', '--untracked-files=no'], capture_output=True, text=True).stdout.strip() == '', 'worker dirty ' + w
 
     def child(w):
-        env = dict(os.environ, VF_REPO=w, VF_CACHE='/tmp/seedcache_' + os.path.basename(w))
+        env = dict(os.environ, VF_REPO=w, VF_CACHE='/tmp/seedcache_' + os.path.basename(w), PYTHONHASHSEED='0')
         r = subprocess.run([sys.executable, __file__, '--child'], capture_output=True, text=True, env=env)
         try:
             return json.loads(r.stdout.strip().splitlines()[-1])
